@@ -480,3 +480,197 @@ func RootWildcardsReachDependants(p *load.Prog, r *oblig.Report, rule string, fu
 		r.Unknown(rule, "root-wildcards:anchor", "-", "no function walks the dependants table of a cycle root: anchors no longer resolve")
 	}
 }
+
+// NoDuplicateOnAppend (C10 / C17 "conditions": one edge per pair with its conditions collected, each once): in the
+// edge upsert functions, a value is appended to the list kept in the named field of an existing object only on paths
+// that established its absence from that very list — slices.Contains(list, v) false, or a comparison of an element of
+// the list with v that failed (the hand-written search loop). A de-duplication applied afterwards to the whole list
+// (slices.Compact, which only drops adjacent repeats) does not count.
+func NoDuplicateOnAppend(p *load.Prog, r *oblig.Report, rule string, specs []string, field string) {
+	for _, spec := range specs {
+		parts := strings.Split(spec, ".")
+		var fn *ssa.Function
+		if len(parts) == 2 {
+			fn = p.Func(parts[0], parts[1])
+		} else {
+			fn = p.Method(parts[0], parts[1], parts[2])
+		}
+		construct := "no-duplicate-append:" + spec + ":" + field
+		if fn == nil {
+			r.Unknown(rule, construct, "-", "function not found")
+			continue
+		}
+		ex := &pathx.Explorer{Root: fn, MaxPaths: 20000}
+		paths := ex.Explore()
+		if ex.Overflow || len(paths) == 0 {
+			r.Unknown(rule, construct, p.Pos(fn.Pos()), "paths could not be enumerated")
+			continue
+		}
+		appends, bad := 0, ""
+		for _, pt := range paths {
+			for _, ev := range pt.Events {
+				st, ok := ev.Instr.(*ssa.Store)
+				if !ok {
+					continue
+				}
+				addr := pt.Resolve(ev.Term(st.Addr))
+				fa, ok := addr.V.(*ssa.FieldAddr)
+				if !ok || structFieldName(fa.X.Type(), fa.Field) != field {
+					continue
+				}
+				list := pt.Render(addr)
+				// the stored value extends the list it replaces?
+				var elem pathx.Term
+				var find func(t pathx.Term, depth int) bool
+				find = func(t pathx.Term, depth int) bool {
+					t = pt.Resolve(t)
+					if depth > 6 || t.V == nil {
+						return false
+					}
+					call, ok := t.V.(*ssa.Call)
+					if !ok {
+						return false
+					}
+					if b, isB := call.Common().Value.(*ssa.Builtin); isB && b.Name() == "append" && len(call.Common().Args) == 2 {
+						if pt.Render(t.Sub(call.Common().Args[0])) == list {
+							// the one element of the variadic operand
+							if sl, ok := call.Common().Args[1].(*ssa.Slice); ok {
+								if al, ok := sl.X.(*ssa.Alloc); ok && al.Referrers() != nil {
+									for _, ref := range *al.Referrers() {
+										if ia, ok := ref.(*ssa.IndexAddr); ok && ia.Referrers() != nil {
+											for _, r2 := range *ia.Referrers() {
+												if s2, ok := r2.(*ssa.Store); ok {
+													elem = t.Sub(s2.Val)
+												}
+											}
+										}
+									}
+								}
+							}
+							return true
+						}
+						return false
+					}
+					for _, a := range call.Common().Args {
+						if _, isSlice := a.Type().Underlying().(*types.Slice); isSlice && find(t.Sub(a), depth+1) {
+							return true
+						}
+					}
+					return false
+				}
+				if !find(ev.Term(st.Val), 0) {
+					continue
+				}
+				appends++
+				ev0 := "?"
+				if elem.V != nil {
+					ev0 = pt.Render(elem)
+				}
+				absent := false
+				for _, f := range pt.Facts(ev.NCond) {
+					if f.Value {
+						continue
+					}
+					if strings.HasPrefix(f.Atom, "slices.Contains("+list+", ") && strings.HasSuffix(f.Atom, ", "+ev0+")") {
+						absent = true
+					}
+					if strings.Contains(f.Atom, " == ") && strings.Contains(f.Atom, list+"[") && strings.Contains(f.Atom, ev0) {
+						absent = true
+					}
+					// the search loop over the list ran to its end (or the list is empty)
+					if strings.HasSuffix(f.Atom, "< len("+list+")") {
+						absent = true
+					}
+				}
+				if !absent {
+					bad = fmt.Sprintf("%s is appended to %s on a path that did not establish that it is not in the list yet (%s; conditions: %s): the same %s can be recorded twice on one edge", pathx.StripUnique(ev0), pathx.StripUnique(list), p.Pos(st.Pos()), factList(pt.Facts(ev.NCond)), strings.TrimSuffix(field, "s"))
+				}
+			}
+		}
+		switch {
+		case bad != "":
+			r.Bad(rule, construct, p.Pos(fn.Pos()), bad)
+		case appends == 0:
+			r.Unknown(rule, construct, p.Pos(fn.Pos()), "no append to the "+field+" of an existing object found: anchors no longer resolve")
+		default:
+			r.OK(rule, construct, p.Pos(fn.Pos()), "path-enumeration", fmt.Sprintf("%d appending path(s), each after the absence of the value was established", appends))
+		}
+	}
+}
+
+// StepAlwaysCreatesEdge (C10 / C17 "edges correspond one-to-one to the rewrite"): a translation step that stands for
+// exactly one operand — a computed userset — creates its edge on every path that returns without an error; a path
+// that returns early (an operand that "leads nowhere", a missing metadata entry) loses the edge and with it the
+// paths and cycles that run through it.
+func StepAlwaysCreatesEdge(p *load.Prog, r *oblig.Report, rule string, specs []string) {
+	edgeAPI := map[string]bool{"AddEdge": true, "UpsertEdge": true, "upsertEdge": true}
+	for _, spec := range specs {
+		parts := strings.Split(spec, ".")
+		var fn *ssa.Function
+		if len(parts) == 2 {
+			fn = p.Func(parts[0], parts[1])
+		} else {
+			fn = p.Method(parts[0], parts[1], parts[2])
+		}
+		construct := "step-creates-edge:" + spec
+		if fn == nil {
+			r.Unknown(rule, construct, "-", "function not found")
+			continue
+		}
+		ex := &pathx.Explorer{Root: fn, MaxPaths: 5000, Follow: func(c *ssa.Function) bool {
+			return c.Pkg == fn.Pkg && len(c.Blocks) > 0 && !edgeAPI[c.Name()] && (c.Parent() != nil || !token.IsExported(c.Name()))
+		}}
+		paths := ex.Explore()
+		if ex.Overflow || len(paths) == 0 {
+			r.Unknown(rule, construct, p.Pos(fn.Pos()), "paths could not be enumerated")
+			continue
+		}
+		creating, bad := 0, ""
+		for _, pt := range paths {
+			if pt.End != "return" {
+				continue
+			}
+			// a return that reports an error is not a translation
+			failed := false
+			for i := range pt.Ret.Results {
+				if types.Identical(pt.Ret.Results[i].Type(), types.Universe.Lookup("error").Type()) {
+					rt := pt.Resolve(pt.RetTerm(i))
+					if c, ok := rt.V.(*ssa.Const); ok && c.IsNil() {
+						continue
+					}
+					// the error of the edge constructor itself, handed on
+					if call, ok := rt.V.(*ssa.Call); ok {
+						if cal := call.Common().StaticCallee(); cal != nil && edgeAPI[cal.Name()] {
+							continue
+						}
+					}
+					failed = true
+				}
+			}
+			if failed {
+				continue
+			}
+			has := false
+			for _, ev := range pt.Events {
+				if call, ok := ev.Instr.(*ssa.Call); ok {
+					if cal := call.Common().StaticCallee(); cal != nil && edgeAPI[cal.Name()] {
+						has = true
+					}
+				}
+			}
+			if has {
+				creating++
+			} else {
+				bad = fmt.Sprintf("a path returns without creating the edge of this operand (conditions: %s)", factList(pt.Facts(-1)))
+			}
+		}
+		switch {
+		case bad != "":
+			r.Bad(rule, construct, p.Pos(fn.Pos()), bad+": the rewrite has an operand the graph has no edge for")
+		case creating == 0:
+			r.Unknown(rule, construct, p.Pos(fn.Pos()), "no path creates an edge: anchors no longer resolve")
+		default:
+			r.OK(rule, construct, p.Pos(fn.Pos()), "path-enumeration", fmt.Sprintf("%d returning path(s), each creates the edge", creating))
+		}
+	}
+}
